@@ -1,14 +1,19 @@
 """Registered checks C12, C05, C08, C09, C13."""
 from . import regrid_checks as RG
+from . import curves_checks as CU
 
 
 def dispatch_replay(chk, rp):
     kind = rp.get("kind")
     if kind == "regrid":
         return RG.replay_file(chk, rp)
+    if kind == "curves":
+        return CU.replay_file(chk, rp)
     raise SystemExit("cannot replay kind %r; re-run the check" % kind)
 
 
 REGISTRY = {
     "C12": {"run": RG.c12, "replay": dispatch_replay},
+    "C05": {"run": CU.c05, "replay": dispatch_replay},
+    "C08": {"run": CU.c08, "replay": dispatch_replay},
 }
